@@ -30,6 +30,12 @@ var fineGrained = map[string][]string{
 	"hiter": {
 		"pkg/storage/storagewrappers/sharediterator/shared_iterator_datastore.go",
 	},
+	// the classic ListObjects engine with its result-limit counter behind a yielding atomic: the
+	// goroutines that confirm candidates race for the last slots of a limited answer ("path#ident"
+	// = swap the atomic types only on the lines that mention ident, add no other yields)
+	"hlo": {
+		"pkg/server/commands/list_objects.go#objectsFound",
+	},
 	"hpipe": {
 		"internal/containers/mpmc/queue.go",
 		"internal/containers/mpsc/accumulator.go",
@@ -46,7 +52,7 @@ var fineGrained = map[string][]string{
 
 // harnessPkg maps a harness name to the sim package that hosts it (default: the same name). "hpipe"
 // is the engine harness compiled with the fine-grained instrumentation over the pipeline sources.
-var harnessPkg = map[string]string{"hpipe": "hengine"}
+var harnessPkg = map[string]string{"hpipe": "hengine", "hlo": "hengine"}
 
 func pkgOf(harness string) string {
 	if p, ok := harnessPkg[harness]; ok {
@@ -84,7 +90,9 @@ func instrument(dir, harness string) (map[string]string, error) {
 	}
 	out := map[string]string{}
 	total := 0
+	minPoints := 5
 	for _, rel := range fineGrained[harness] {
+		rel, only, filtered := strings.Cut(rel, "#")
 		src := filepath.Join(repoDir, rel)
 		data, err := os.ReadFile(src)
 		if err != nil {
@@ -92,15 +100,35 @@ func instrument(dir, harness string) (map[string]string, error) {
 		}
 		s := string(data)
 		nSwap := 0
-		for _, sw := range swaps {
-			nSwap += strings.Count(s, sw.from)
-			s = strings.ReplaceAll(s, sw.from, sw.to)
+		if filtered {
+			minPoints = 2
+			ls := strings.Split(s, "\n")
+			for i, l := range ls {
+				if !strings.Contains(l, only) {
+					continue
+				}
+				for _, sw := range swaps {
+					nSwap += strings.Count(l, sw.from)
+					l = strings.ReplaceAll(l, sw.from, sw.to)
+				}
+				ls[i] = l
+			}
+			s = strings.Join(ls, "\n")
+		} else {
+			for _, sw := range swaps {
+				nSwap += strings.Count(s, sw.from)
+				s = strings.ReplaceAll(s, sw.from, sw.to)
+			}
 		}
 		lines := strings.Split(s, "\n")
 		var res []string
 		nYield := 0
 		inCase := false
 		for _, l := range lines {
+			if filtered {
+				res = append(res, l)
+				continue
+			}
 			trim := strings.TrimSpace(l)
 			// never touch select cases ("case x <- v:", "case v := <-c:")
 			inCase = strings.HasPrefix(trim, "case ") || strings.HasPrefix(trim, "default:")
@@ -143,7 +171,7 @@ func instrument(dir, harness string) (map[string]string, error) {
 		}
 		out[src] = dst
 	}
-	if total < 5 {
+	if total < minPoints {
 		return nil, fmt.Errorf("only %d instrumentation points found in %d files (sources changed shape?)", total, len(fineGrained[harness]))
 	}
 	return out, nil
